@@ -33,7 +33,26 @@ type Check struct {
 
 var registry = map[string]*Check{}
 
-func register(c *Check) { registry[c.ID] = c }
+// sweepRule: what checks_sweep.go / checks_grid.go / checks_soak.go add to a
+// check's own small-scope enumeration (appended to its rule text in the evidence).
+const sweepRule = " PLUS, beyond the small scope: (a) length sweeps - a fixed family of this check's configurations for EVERY length L of one designated dimension, L = 1..40 (thorough 1..300), every power of two 32..4096 (thorough 8192) with both neighbours, round sizes up to 3072 (10000), and every integer constant occurring in the library's CURRENT source (code-derived sizes n-1, n, n+1, small multiples), other dimensions 1..3; (b) grid sweeps - the families over all pairs of 10 (thorough 19) and all triples of 6 (9) medium sizes 4..64 (128), and over shapes of rank 1-3 whose element count is just above 4096, 16384, 65536 (thorough 2^18, 2^20) and above every code-derived integer; (c) soak histories - several hundred (thorough 6000) steps of a rotating list of the check's configurations in one process with fresh operands per step, one set of component objects and runtime.GC() every 8 steps, in two rotation orders. Same reference-model oracle."
+
+var sweptChecks = map[string]bool{"C01": true, "C02": true, "C03": true, "C04": true, "C05": true, "C06": true, "C07": true, "C11": true, "C12": true, "C13": true, "C14": true, "C15": true, "C16": true, "C17": true, "C19": true}
+
+func register(c *Check) {
+	if sweptChecks[c.ID] {
+		c.Rule += sweepRule
+		fn := c.Fn
+		c.Fn = func(x *core.Ctx) {
+			if x.Shard == 0 {
+				x.Note("integer constants found in the library's current source (used as additional lengths / element counts / operand counts): %v", core.CodeInts(2, 1<<21))
+			}
+			fn(x)
+		}
+		c.Assumptions = append(c.Assumptions, "sweeps: one long dimension at a time (others 1..3), pairs / triples of medium sizes, element counts near the listed and code-derived thresholds; not every shape")
+	}
+	registry[c.ID] = c
+}
 
 func main() {
 	if len(os.Args) < 2 {
